@@ -156,6 +156,18 @@ def generate(seed, tier="quick", mode=None, **kw):
     if as_embedded:
         files[0]["lines"] = [GC.secret_line(r, ctx, secrets, kinds=("keep",), ident=i, templates=[
             ("snmp-server community {} ro 1", G.ALL, "keep"), ("radius-server key {}", G.NOT_NUM, "keep")]) for i in sorted(secrets)]
+    if mode == "c07" and r.random() < 0.12:
+        # in world a one text secret happens to equal an ordinary, non-reserved token of the same configuration (a host name
+        # that is also used as a password); in world b it does not.  The token itself stays, the secret's position does not.
+        cands = [i for i in sorted(secrets) if secrets[i]["cls"] == "text" and not secrets[i].get("related")
+                 and any(s[0] == "sec" and str(s[2]["id"]) == i and s[2].get("enc") != "j9" for f in files for ln in f["lines"] for s in ln["segs"])]
+        if cands:
+            i = r.choice(cands)
+            tok = "edge-%s-%s" % ("".join(r.choice("abcdef0123456789") for _ in range(4)), "".join(r.choice("abcdef0123456789") for _ in range(3)))
+            b = secrets[i]["b"]
+            secrets[i] = {"cls": "text", "a": tok, "b": (b + "Zq4xw81kkk")[: len(tok)] if len(b) != len(tok) else b, "coincident": True}
+            f = r.choice(files)
+            f["lines"].insert(r.randint(0, len(f["lines"])), G.lit_line(r.choice(["hostname %s", " description link to %s", "snmp-server location rack of %s"]) % tok))
     entry = r.choice(["cli", "cli", "files", "file", "io"])
     plan = {"family": NAME, "seed": seed, "mode": mode, "files": files, "dirs": dirs, "secrets": secrets, "opts": o,
             "entry": entry, "knobs": GC.gen_knobs(r), "faults": [], "pre": [],
@@ -445,7 +457,7 @@ def _check_c07(plan):
         logblob = "\n".join(m + "\n" + tb for lv, m, tb in h["logs"]) + "\n" + h.get("stdout", "") + "\n" + h.get("stderr", "")
         for ident, s in sorted(plan["secrets"].items()):
             val = s[which]
-            if s["cls"] in ("rwc", "pseudo"):
+            if s["cls"] in ("rwc", "pseudo") or s.get("coincident"):
                 continue        # dictionary-like values: judged at their positions (clause c), not by substring
             probes["leak_scans"] += 1
             if val.encode("utf-8") in blob:
